@@ -6,6 +6,6 @@ d=/tmp/seed/$n
 git -C /repo worktree add --detach $d ${2:-7ea6fd1} >/dev/null 2>&1
 cp /repo/Cargo.lock $d/Cargo.lock
 mkdir -p $d/target
-cp -r --reflink=auto /repo/target/debug $d/target/debug 2>/dev/null || true
+rsync -a --exclude incremental /repo/target/debug/ $d/target/debug/ 2>/dev/null || true
 mkdir -p $d/OUT
 echo $d
